@@ -34,6 +34,18 @@ class CustomBase(BaseException):
     pass
 
 
+class SlowArg:
+    def __init__(self, key):
+        self.key = key
+
+    def __reduce__(self):
+        time.sleep(0.3)
+        return (SlowArg, (self.key,))
+
+    def __repr__(self):
+        return f'SlowArg({self.key})'
+
+
 def _log(kind, **kw):
     if hook is not None:
         hook.log_event(kind, **kw)
@@ -143,6 +155,8 @@ def make_exception(name, key):
                 pass
             return LocalError
         return mk()('local', key)
+    if name == 'SlowPickle':          # an argument that takes a while to pickle: the exception object arrives late
+        return ValueError(SlowArg(key))
     if name == 'NestedArgs':
         return ValueError({'k': [key, (1, 2)]}, 'x' * 50, key)
     raise RuntimeError('unknown exception spec ' + name)
